@@ -27,6 +27,26 @@ CLAIMED = {
              "modelled: their effect is observed behaviourally. Success is demanded only where unit propagation suffices.",
         technique="Lean 4 proof over reference solver + differential correspondence with brute-force oracle",
         design="5 (C02)"),
+    "C06": dict(
+        text="Lean theorems: memo_transparent (any history, any eviction policy that only drops entries: a call's outcome equals the fresh outcome whenever equal keys imply equal "
+             "computations; failing computations are not stored), key_refines_observation (for the _freeze_value dispatch table REGENERATED from the AST on every run: equal cache keys "
+             "imply equal typed observations; obligations respects/tagsAll by decide; refutation witness for the untagged table), stack_restored (with/depend_on stacks are balanced on "
+             "every path, over extracted __exit__ facts). Ties: model freeze/==/exact hash vs CPython on 20k value pairs; memo machine predictions vs warm outcomes; search: warm-vs-cold "
+             "differential against pristine forked interpreters on directed and random call histories.",
+        note="Trusted: Lean kernel, driver, AST extractor of _freeze_value/lru_cache/__exit__, harness and fork server. General hash consistency (pyEq -> equal hash) is tied behaviourally, "
+             "not proved; NaN, ndarray-valued factory defaults and the identity short-cut of container comparison are outside the value model (explicit assumptions).",
+        technique="Lean 4 proof over hand-written model + dispatch table regenerated from source + differential correspondence + warm/cold search",
+        design="5 (C06)"),
+    "C10": dict(
+        text="Lean interleaving semantics over the sequential registry model (acquire?; read snapshot; compute; store; release? per method, lock table REGENERATED from the AST): "
+             "locked_linearizable (for every number of threads, every program and every schedule, a finished execution equals the serial run in commit order: outputs, final state), "
+             "locked_no_deadlock, locked_can_finish, locked_outcome_serial, thread_local_noninterference, decide'd lost-update witnesses for unlocked get/enter; obligations over the "
+             "extracted facts (every method locked in one block, thread-local stacks, sys.modules snapshot, functools cache). Tie/search: deterministic settrace scheduler on real "
+             "BackendRegistry objects and end-to-end einx calls (critical, sweep, random, exhaustive schedules); outcomes must equal some serial order run on a fresh real registry.",
+        note="Trusted: Lean kernel, driver, AST extractor, the scheduler (preemption at line/call/return events of einx's Python code only; preemption inside C functions such as "
+             "functools.cache or numpy is not exercised), thread-safety of functools.cache. torch device / array-api namespace stacks have source-fact obligations only (frameworks absent).",
+        technique="Lean 4 proof (linearizability by simulation) + lock discipline regenerated from source + deterministic-scheduler correspondence",
+        design="5 (C10)"),
     "C11": dict(
         text="Lean theorems about the model of BackendRegistryState (precedence chain, get = pure specGet in every quiet state with a sound memo, "
              "lookups do not influence later lookups, register clears the memo [obligation regenerated from the AST], failing factories isolated, real priorities) "
